@@ -16,7 +16,19 @@ import (
 // Whatever the server keeps in memory for "the master head" was built along n0-n1-n2; n3 descends from the merge node and
 // holds neither 1001 nor 1002.  Every neuronjson read at every version must be the same before and after a restart.
 func directedLineage(c *drv.Ctx, bin string) error {
-	dir, err := c.NewDataDir("directed-lineage", drv.ConfOpts{})
+	// variant "side-first": merge(side, n0), the head line continues to n2 (as described above);
+	// variant "head-first": merge(n1, side) with the head line's last committed version as FIRST parent and no n2 - a walk
+	// along first parents from the new head reaches the version the head db holds, although the merge also brings in `side`
+	for _, variant := range []string{"side-first", "head-first"} {
+		if err := directedLineageVariant(c, bin, variant); err != nil {
+			return err
+		}
+	}
+	return nil
+}
+
+func directedLineageVariant(c *drv.Ctx, bin, variant string) error {
+	dir, err := c.NewDataDir("directed-lineage-"+variant, drv.ConfOpts{})
 	if err != nil {
 		return err
 	}
@@ -26,7 +38,7 @@ func directedLineage(c *drv.Ctx, bin string) error {
 	}
 	defer func() { w.Kill() }()
 	cl := &dvc.Client{W: w}
-	root, err := cl.NewRepo("directed-lineage")
+	root, err := cl.NewRepo("directed-lineage-" + variant)
 	if err != nil {
 		return err
 	}
@@ -55,10 +67,30 @@ func directedLineage(c *drv.Ctx, bin string) error {
 		func() (err error) { b, err = cl.Branch(root, "side"); return },
 		func() error { return post(b, "key/1005?u=a", `{"bodyid": 1005, "type": "T5"}`) },
 		func() error { return cl.Commit(b) },
-		func() (err error) { m, err = cl.Merge(root, []string{b, root}); return },
+		func() (err error) {
+			if variant == "head-first" {
+				m, err = cl.Merge(root, []string{n1, b})
+			} else {
+				m, err = cl.Merge(root, []string{b, root})
+			}
+			return
+		},
 		func() error { return cl.Commit(m) },
-		func() (err error) { n2, err = cl.NewVersion(n1); return },
-		func() error { return post(n2, "key/1002?u=a", `{"bodyid": 1002, "type": "T2"}`) },
+		func() (err error) {
+			if variant == "head-first" {
+				n2 = n1 // the head line ends at n1; reading there makes the head db hold n1
+				_, err = w.Get("/api/node/" + n1 + "/nj/all")
+				return
+			}
+			n2, err = cl.NewVersion(n1)
+			return
+		},
+		func() error {
+			if variant == "head-first" {
+				return nil
+			}
+			return post(n2, "key/1002?u=a", `{"bodyid": 1002, "type": "T2"}`)
+		},
 		func() (err error) { n3, err = cl.NewVersion(m); return },
 	}
 	for i, f := range steps {
@@ -105,7 +137,7 @@ func directedLineage(c *drv.Ctx, bin string) error {
 		if err != nil {
 			return err
 		}
-		c.Case("directed-lineage|"+mode, true)
+		c.Case("directed-lineage|"+variant+"|"+mode, true)
 		c.Count("restarts", 1)
 		c.Count("snapshot_urls_compared", len(before))
 		for k, v := range before {
